@@ -2,25 +2,32 @@
 """Run the registered quick check of each seeded change's property against a scratch worktree with the change applied;
 record the outcome in seeded/<id>/meta.json and print the table (used for DESIGN.md)."""
 import json, pathlib, subprocess, sys, os
+from concurrent.futures import ThreadPoolExecutor
 V = pathlib.Path(__file__).resolve().parent.parent
 only = sys.argv[1:]
 rows = []
-for d in sorted((V / "seeded").iterdir()):
+def one(d):
     meta = json.loads((d / "meta.json").read_text())
     if only and not any(o in d.name for o in only):
-        rows.append((d.name, meta)); continue
+        return (d.name, meta)
     if meta.get("detected_by") and not os.environ.get("FORCE"):
-        rows.append((d.name, meta)); continue
+        return (d.name, meta)
     pid = meta["property"]
     r = subprocess.run([str(V / "tools" / "try_seed.sh"), pid, str(d / "patch.diff")], capture_output=True, text=True,
                        env={**os.environ, "SEEDS": os.environ.get("SEEDS", "0 1")})
     viol = [l for l in r.stdout.splitlines() if l.startswith("VIOLATION")]
     concrete = [l for l in viol if "no-failing-input-found" not in l]
+    if r.returncode not in (0, 1):          # infrastructure trouble (killed, build failure): keep the old record
+        print(f"{d.name}: try_seed exit {r.returncode}, record kept: {r.stdout[-300:]}", file=sys.stderr)
+        return (d.name, meta)
     meta["detected_by"] = {"check": f"./check {pid} --tier quick (seeds {os.environ.get('SEEDS', '0 1')})", "exit": r.returncode,
                            "violation_lines": len(viol), "with_concrete_replay": len(concrete),
                            "first": (concrete or viol or [""])[0][:240]}
     (d / "meta.json").write_text(json.dumps(meta, indent=1))
-    rows.append((d.name, meta))
+    print(f"done {d.name} exit={r.returncode} concrete={len(concrete)}/{len(viol)}", file=sys.stderr, flush=True)
+    return (d.name, meta)
+with ThreadPoolExecutor(int(os.environ.get("JOBS", "1"))) as ex:      # JOBS=n: n scratch copies at a time
+    rows = list(ex.map(one, sorted((V / "seeded").iterdir())))
 for name, m in rows:
     db = m.get("detected_by") or {}
     print(f"{name:22} {m['property']}  exit={db.get('exit')}  concrete={db.get('with_concrete_replay')}  | {str(m.get('breaks'))[:70]} | needs: {str(m.get('needs'))[:90]}")
